@@ -286,8 +286,16 @@ class PDFContentParser(PSStackParser[Union[PSKeyword, PDFStream]]):
         self.seek(pos)
         i = 0
         data = b""
+        at_eof = False
         while i <= len(target):
-            self.fillbuf()
+            try:
+                self.fillbuf()
+            except PSEOF:
+                if i < len(target):
+                    raise
+                # the end marker is the last thing in the content stream
+                at_eof = True
+                break
             if i:
                 ci = self.buf[self.charpos]
                 c = bytes((ci,))
@@ -311,7 +319,8 @@ class PDFContentParser(PSStackParser[Union[PSKeyword, PDFStream]]):
                 except ValueError:
                     data += self.buf[self.charpos :]
                     self.charpos = len(self.buf)
-        data = data[: -(len(target) + 1)]  # strip the last part
+        # strip the end marker and the white space that followed it
+        data = data[: -len(target)] if at_eof else data[: -(len(target) + 1)]
         data = re.sub(rb"(\x0d\x0a|[\x0d\x0a])\Z", b"", data)
         return (pos, data)
 
